@@ -51,7 +51,13 @@ def strategy(tier):
         if draw(st.integers(0, 3)) == 0:
             off = draw(S.fl(0.05, 0.6, 3)) * h
             rel = [v + off for v in rel]
-        c = {"model": m, "setup": su, "grid_rel": [S.sig(v, 6) for v in rel],
+        rel = [S.sig(v, 6) for v in rel]
+        if draw(st.integers(0, 5)) == 0:
+            # a time asked for twice (a fine grid glued to a coarse one with the joining time in both): one identical row more,
+            # one interval of length zero with no counts
+            j = draw(st.integers(0, len(rel) - 1))
+            rel = rel[:j + 1] + rel[j:]
+        c = {"model": m, "setup": su, "grid_rel": rel,
              "grid_type": draw(st.sampled_from(["list", "tuple", "array"])),
              "exact": draw(st.sampled_from([True, True, True, False])),
              "iters": draw(st.integers(1, 2)),
@@ -87,8 +93,10 @@ def _check_call(case, rec, model, order, su, grid_type, tag):
     m = case["model"]
     n_s, n_e = len(ir.state_names(m)), len(m["events"])
     grid = np.array([su["t0"] + v for v in case["grid_rel"]])
-    if not (np.diff(grid) > 0).all():
+    if not (np.diff(grid) >= 0).all() or (np.diff(grid) == 0).sum() > 1:
         raise Inconclusive("degenerate grid")
+    if (np.diff(grid) == 0).any():
+        rec.label("grid:repeated-time")
     g_arg = {"list": list(grid), "tuple": tuple(grid), "array": grid}[grid_type]
     exact = case["exact"]
     V = stoch.V_int(m, su["theta"], order)
